@@ -4,6 +4,7 @@ package jp
 
 import (
 	"fmt"
+	"math"
 	"reflect"
 	"regexp"
 	"sort"
@@ -441,6 +442,32 @@ func sameValue(left, right any) bool {
 	return left == right
 }
 
+// cmpIntFloat orders an int64 and a float64 by their exact values: -1, 0 or 1,
+// and 2 when f is NaN. Converting the int64 to float64 first would round
+// integers above 2^53 (9007199254740993 would equal 9007199254740992.0).
+func cmpIntFloat(i int64, f float64) int {
+	switch {
+	case f != f:
+		return 2
+	case 9223372036854775808.0 <= f:
+		return -1
+	case f < -9223372036854775808.0:
+		return 1
+	}
+	t := math.Trunc(f) // an integer in the int64 range
+	switch ti := int64(t); {
+	case i < ti:
+		return -1
+	case ti < i:
+		return 1
+	case t < f:
+		return -1
+	case f < t:
+		return 1
+	}
+	return 0
+}
+
 func normalize(v any) any {
 	switch tv := v.(type) {
 	case int:
@@ -516,11 +543,11 @@ func evalStack(sstack []any) []any {
 				switch tl := left.(type) {
 				case int64:
 					if tr, ok := right.(float64); ok {
-						sstack[i] = ok && float64(tl) == tr
+						sstack[i] = ok && cmpIntFloat(tl, tr) == 0
 					}
 				case float64:
 					tr, ok := right.(int64)
-					sstack[i] = ok && tl == float64(tr)
+					sstack[i] = ok && cmpIntFloat(tr, tl) == 0
 				}
 			}
 		case neq.code:
@@ -531,11 +558,11 @@ func evalStack(sstack []any) []any {
 				switch tl := left.(type) {
 				case int64:
 					if tr, ok := right.(float64); ok {
-						sstack[i] = ok && float64(tl) != tr
+						sstack[i] = ok && cmpIntFloat(tl, tr) != 0
 					}
 				case float64:
 					if tr, ok := right.(int64); ok {
-						sstack[i] = tl != float64(tr)
+						sstack[i] = cmpIntFloat(tr, tl) != 0
 					}
 				}
 			}
@@ -547,12 +574,12 @@ func evalStack(sstack []any) []any {
 				case int64:
 					sstack[i] = tl < tr
 				case float64:
-					sstack[i] = float64(tl) < tr
+					sstack[i] = cmpIntFloat(tl, tr) == -1
 				}
 			case float64:
 				switch tr := right.(type) {
 				case int64:
-					sstack[i] = tl < float64(tr)
+					sstack[i] = cmpIntFloat(tr, tl) == 1
 				case float64:
 					sstack[i] = tl < tr
 				}
@@ -568,12 +595,12 @@ func evalStack(sstack []any) []any {
 				case int64:
 					sstack[i] = tl > tr
 				case float64:
-					sstack[i] = float64(tl) > tr
+					sstack[i] = cmpIntFloat(tl, tr) == 1
 				}
 			case float64:
 				switch tr := right.(type) {
 				case int64:
-					sstack[i] = tl > float64(tr)
+					sstack[i] = cmpIntFloat(tr, tl) == -1
 				case float64:
 					sstack[i] = tl > tr
 				}
@@ -589,12 +616,13 @@ func evalStack(sstack []any) []any {
 				case int64:
 					sstack[i] = tl <= tr
 				case float64:
-					sstack[i] = float64(tl) <= tr
+					sstack[i] = cmpIntFloat(tl, tr) <= 0
 				}
 			case float64:
 				switch tr := right.(type) {
 				case int64:
-					sstack[i] = tl <= float64(tr)
+					c := cmpIntFloat(tr, tl)
+					sstack[i] = c == 0 || c == 1
 				case float64:
 					sstack[i] = tl <= tr
 				}
@@ -610,12 +638,13 @@ func evalStack(sstack []any) []any {
 				case int64:
 					sstack[i] = tl >= tr
 				case float64:
-					sstack[i] = float64(tl) >= tr
+					c := cmpIntFloat(tl, tr)
+					sstack[i] = c == 0 || c == 1
 				}
 			case float64:
 				switch tr := right.(type) {
 				case int64:
-					sstack[i] = tl >= float64(tr)
+					sstack[i] = cmpIntFloat(tr, tl) <= 0
 				case float64:
 					sstack[i] = tl >= tr
 				}
